@@ -872,6 +872,26 @@ def rule_eq1(ctx: Ctx) -> RuleResult:
                                   f"compares {proj[0].strip('.(')} only: nodes that differ in the rest (same field names, other value "
                                   f"types) compare equal and the later one is dropped, so the result depends on sample order"
                                   if proj else "full content compared", cmpn.lineno)
+    # (a'') ... and it IS an equality: every __eq__ of an IR class that looks at content does so with `==` between the same attribute
+    # of self and other (or hands over to super / compares with a dict); a difference, a subset test or a zip over members is one-sided
+    for c in prog.subclasses(base):
+        for f in c.methods.get("__eq__", []):
+            txt = norm(f.node)
+            if "self." not in txt.replace("type(self)", ""):
+                continue                    # no content looked at (identity / class only)
+            rr.instances += 1
+            eqs = [x for x in walk_no_nested(f.node) if isinstance(x, ast.Compare) and len(x.ops) == 1 and isinstance(x.ops[0], ast.Eq)
+                   and isinstance(x.left, ast.Attribute) and isinstance(x.comparators[0], ast.Attribute)
+                   and {norm(x.left.value), norm(x.comparators[0].value)} == {"self", "other"} and x.left.attr == x.comparators[0].attr]
+            handed = "super().__eq__" in txt or any(isinstance(x, ast.Compare) and isinstance(x.ops[0], ast.Eq) and
+                                                    {"other"} & {norm(x.left), norm(x.comparators[0])} for x in walk_no_nested(f.node)) \
+                or "self is other" in txt or "other is self" in txt
+            ok_ = bool(eqs) or handed
+            rr.ob(f.relpath, f.qualname, "content compared with ==", "equality of two IR nodes is decided by `==` on their content (symmetric, "
+                  "both directions at once)", DISCHARGED if ok_ else VIOLATED,
+                  f"`self.{eqs[0].left.attr} == other.{eqs[0].left.attr}`" if eqs else ("handed to super() / compared as a whole" if handed else
+                  "the content is compared by a difference, a subset test or pairwise over a zip: `a == b` holds when a's content is only "
+                  "part of b's, so the later, richer sample is dropped and the result depends on sample order"), f.node.lineno)
     # (b) ComplexType compares sorted MEMBERS
     ct = prog.cls(CPLX, "ComplexType")
     eq = ct.methods["__eq__"][0]
